@@ -94,6 +94,19 @@ pub fn run_micro(path: &str, env: &Env, adv: bool, rep: &mut Report) -> MicroSta
             st.drift_out += 1;
             drift.push(format!("outcome: code {obs_out} model {exp_out}"));
         }
+        // what the call returned, where the model says (binary operations): a wrong answer under
+        // lawful comparisons is a violation of the operation's own property, otherwise drift
+        if exp_out == "ok" && obs_out == "ok" && t["ret"].as_array().map(|a| !a.is_empty()).unwrap_or(false) && t["ret"] != out.ret {
+            if adv {
+                drift.push(format!("result: code {} model {}", out.ret, t["ret"]));
+            } else {
+                let props = match t["o"]["name"].as_str().unwrap_or("") {
+                    "b_eq" => "C14",
+                    _ => "C08",
+                };
+                rep.add_fail(&Fail { props: props.into(), msg: format!("the call returned {} where the model computes {}", out.ret, t["ret"]) }, &t, idx, "micro model behaviour");
+            }
+        }
         if let Some(post) = &out.post {
             let obs: Vec<Value> = post.iter().map(|(k, c, v)| json!([k, c, v])).collect();
             let mut a: Vec<String> = obs.iter().map(|x| x.to_string()).collect();
